@@ -484,29 +484,29 @@ class TokenEncoder:
         # we then strop if a reserved pattern matches the token
         stropped = self._do_for_type_and_all(self._strop_by_pattern, stropped, token_type_lower, False)
 
-        # and check that the stropping yielded a viable token
-        try:
-            self._do_for_type_and_all(self._strop_by_pattern, stropped, token_type_lower, True)
-        except RuntimeError as pending_error:
-            if self._stropping_failure_handler is None:
-                raise pending_error
-            stropped = self._stropping_failure_handler(self, stropped, token_type, pending_error)
+        # and check that the stropping yielded a viable token, that it didn't result in a keyword and, finally, that
+        # it didn't result in encoding violations. Where a check fails the language's failure handler may supply a
+        # replacement token.
+        handled = False
+        for transform, failure_handler in (
+            (self._strop_by_pattern, self._stropping_failure_handler),
+            (self._strop_by_keyword, self._stropping_failure_handler),
+            (self._encode, self._encoding_failure_handler),
+        ):
+            try:
+                self._do_for_type_and_all(transform, stropped, token_type_lower, True)
+            except RuntimeError as pending_error:
+                if failure_handler is None:
+                    raise pending_error
+                stropped = failure_handler(self, stropped, token_type, pending_error)
+                handled = True
 
-        # and check that the stropping didn't result in a keyword
-        try:
-            self._do_for_type_and_all(self._strop_by_keyword, stropped, token_type_lower, True)
-        except RuntimeError as pending_error:
-            if self._stropping_failure_handler is None:
-                raise pending_error
-            stropped = self._stropping_failure_handler(self, stropped, token_type, pending_error)
-
-        # finally, we make sure stropping didn't result in encoding violations
-        try:
-            self._do_for_type_and_all(self._encode, stropped, token_type_lower, True)
-        except RuntimeError as pending_error:
-            if self._encoding_failure_handler is None:
-                raise pending_error
-            stropped = self._encoding_failure_handler(self, stropped, token_type, pending_error)
+        if handled:
+            # a token supplied by a failure handler gets no special treatment: it is verified like any other
+            # token and a RuntimeError is raised if it is still reserved, matches a reserved pattern or is an
+            # unstable encoding.
+            for transform in (self._strop_by_pattern, self._strop_by_keyword, self._encode):
+                self._do_for_type_and_all(transform, stropped, token_type_lower, True)
 
         return stropped
 
